@@ -713,7 +713,7 @@ fn check_pass(prop: &str, tier: Tier) -> i32 {
         (
             "assumptions",
             J::Arr(vec![
-                J::s("the reference evaluator of sim/src/ir.rs states the documented meaning of every constraint (self-checked against table expansions by `sim selftest`)"),
+                J::s("the reference evaluator of sim/src/ir.rs states the documented meaning of every constraint (there is no separate self-test of it: it is cross-checked by the differential structure of the workloads, by the independently written FlatZinc evaluator of sim/src/fzn.rs for the constraints both cover, and by the hand triage of every alarm on the unchanged tree, DESIGN.md 13.2/13.3)"),
                 J::s("models are small enough for exhaustive enumeration by the reference model; larger models are outside this check"),
                 J::s("a clean batch is evidence, not proof: the schedule and fault space is sampled"),
             ]),
